@@ -47,7 +47,7 @@ def _use_b(bf, b_seed, n_sol, gens, pop, words):
     import fandango.language.grammar.nodes as nodes
 
     random.seed(b_seed)
-    sols = bf.fuzz(desired_solutions=n_sol, max_generations=gens, population_size=pop, random_seed=b_seed)
+    sols = bf.fuzz(desired_solutions=n_sol, max_generations=gens, population_size=pop, random_seed=b_seed, mutation_rate=0.8)
     out = {"solutions": [str(s) for s in sols], "parses": []}
     for w in words:
         try:
@@ -152,7 +152,7 @@ def _history(ops, a_texts, io_text, b_text, b_first, restore=None):
 def run(run: Run) -> None:
     ch, cfg = run.ch, run.cfg
     # ---- specs ------------------------------------------------------------------------
-    b = S.gen_searchspec(ch, dict(cfg.get("spec", {}), raising_rate=0.0, generators=False, max_h=2, max_r=1, inexact_pair_rate=0.0, body_rules=2))
+    b = S.gen_searchspec(ch, dict(cfg.get("spec", {}), raising_rate=0.0, generators=False, max_h=4, max_r=1, inexact_pair_rate=0.0, body_rules=2))
     b_text = b.to_fan()
     n_a = ch.rng_range(1, 2, "spec", "n_a")
     a_texts = []
@@ -168,15 +168,15 @@ def run(run: Run) -> None:
         prewarm(t_)
     # ---- B's fixed workload ---------------------------------------------------------------
     b_seed = 1 + ch.draw(1000, "work", "b-seed")
-    n_sol = ch.rng_range(2, 6, "work", "n-sol")
-    gens = ch.pick([4, 2, 8], "work", "b-gens")
-    pop = ch.pick([6, 3, 12], "work", "b-pop")
+    n_sol = ch.rng_range(4, 8, "work", "n-sol")
+    gens = ch.pick([8, 4, 12], "work", "b-gens")
+    pop = ch.pick([12, 6, 16], "work", "b-pop")
     words = []
     # ---- the history on A -------------------------------------------------------------------
     ops = []
     n_ops = ch.rng_range(1, 6, "sched", "n-ops")
     for _ in range(n_ops):
-        k = ch.weighted([2, 5, 2, 3, 1, 2], "sched", "hist-op")
+        k = ch.weighted([2, 5, 2, 3, 1, 3], "sched", "hist-op")
         i = ch.draw(n_a, "sched", "which-a")
         if k == 0:
             ops.append(("create", i))
@@ -191,7 +191,7 @@ def run(run: Run) -> None:
             ops.append(("create_io",))
         else:
             # another instance built from B's very text, but with other options
-            ops.append(("create_b_text", ch.pick(["lazy", "start_symbol", "stdlib-off-cache-on"], "sched", "b-text-option")))
+            ops.append(("create_b_text", ch.pick(["lazy", "lazy", "start_symbol", "stdlib-off-cache-on"], "sched", "b-text-option")))
     b_first = bool(ch.draw(2, "sched", "b-first"))
     for o in ops:
         run.probe({"create_b_text": "history_created_same_text_other_options", "create": "history_created_spec", "create_io": "history_created_io_spec", "fuzz": "history_fuzzed_A", "parse": "history_parsed_with_A", "abandon": "history_abandoned_generator"}[o[0]])
@@ -233,6 +233,11 @@ def run(run: Run) -> None:
     if ref[0] != "ok" or tst[0] != "ok":
         run.op("child failed: ref=%s test=%s" % (ref[0], (tst[1] if tst[0] != "ok" else "ok")[:300]))
         run.event("child-failed", ref[0], tst[0])
+        if any(r_[0] != "ok" and ("child-timeout" in str(r_[1]) or "child died" in str(r_[1])) for r_ in (ref, tst)):
+            # wall-clock limits of the harness are never a verdict about the product
+            from simfw.run import StepCap
+
+            raise StepCap("child-timeout")
         if tst[0] != "ok" and ref[0] == "ok":
             run.violation("C18", "history-breaks-instance", "b-fails-after-history", "using B after the history failed: %s\nhistory=%s" % (tst[1][:600], ops))
         return
